@@ -25,7 +25,41 @@ sys.path.insert(0, os.path.dirname(HERE))
 from translate import gmpxx          # noqa: E402
 from vlib import common              # noqa: E402
 
-TU = '#include "%s/harness/domains.h"\nint fp_use() { return (int)dz::kinds().size(); }\n'
+TU = '#include "%s/harness/domains.h"\nint fp_use() { return (int)dz::kinds().size(); }\n' + """
+// Every member function of every ring class configuration the library offers -- not only the ones the probes of the zoo call and not
+// only the configurations the zoo instantiates -- is put into the table by explicit instantiation (a function-local static in a kernel
+// of Modular<ruint<K>, ruint<K+1>> was invisible while only Modular<ruint<7>> was instantiated: seeded change C18-x3).
+// (GFqDom is not in this list: its member init(Rep&, std::istream&) does not compile when instantiated.)
+#include <givaro/modular-log16.h>
+template class Givaro::Modular<RecInt::ruint<7>, RecInt::ruint<8>>;
+template class Givaro::Modular<RecInt::ruint<7>, RecInt::ruint<7>>;
+template class Givaro::Modular<RecInt::rint<7>>;
+template class Givaro::Modular<RecInt::ruint<8>>;
+template class Givaro::Modular<int8_t>;
+template class Givaro::Modular<uint8_t>;
+template class Givaro::Modular<int16_t>;
+template class Givaro::Modular<uint16_t>;
+template class Givaro::Modular<int32_t>;
+template class Givaro::Modular<uint32_t>;
+template class Givaro::Modular<int64_t>;
+template class Givaro::Modular<uint64_t>;
+template class Givaro::Modular<int32_t, int64_t>;
+template class Givaro::Modular<uint32_t, uint64_t>;
+template class Givaro::Modular<int32_t, uint64_t>;
+template class Givaro::Modular<float>;
+template class Givaro::Modular<double>;
+template class Givaro::Modular<float, double>;
+template class Givaro::Modular<Givaro::Integer>;
+template class Givaro::ModularBalanced<float>;
+template class Givaro::ModularBalanced<double>;
+template class Givaro::ModularBalanced<int32_t>;
+template class Givaro::ModularBalanced<int64_t>;
+template class Givaro::ModularExtended<float>;
+template class Givaro::ModularExtended<double>;
+template class Givaro::Montgomery<int32_t>;
+template class Givaro::Montgomery<RecInt::ruint<7>>;
+template class Givaro::Montgomery<RecInt::ruint<8>>;
+"""
 # the out-of-line definitions the domain classes call into (compiled into libgivaro, not visible through the headers): included in the
 # translation unit so that the closure under calls reaches them (Rational arithmetic and constructors, the allocator; the Integer layer is C01's translation unit)
 OUT_OF_LINE = ("src/kernel/rational/givrataddsub.C", "src/kernel/rational/givratcompare.C", "src/kernel/rational/givratcpy.C",
